@@ -1711,9 +1711,17 @@ pub fn run_c19(st: &Shared, _tier: Tier) -> RunReport {
         let ch = &mut st.borrow_mut().ch;
         sys.exact && ch.flag("start_at_solution")
     };
+    // exact systems also start *partly* at the solution (added after seeded
+    // change C19-r): a drawn subset of the parameters starts exactly at its
+    // solution value, so that some equations are exactly satisfied at the
+    // start while others are not
+    let partly = sys.exact && !at_solution && st.borrow_mut().ch.odds("start_partly_at_solution", 1, 2);
+    if partly {
+        rep.count("op.start_partly_at_exact_solution", 1);
+    }
     let start: Vec<f32> = (0..sys.n)
         .map(|i| {
-            if at_solution {
+            if at_solution || (partly && st.borrow_mut().ch.odds("start_here_at_solution", 2, 3)) {
                 sys.xstar[i]
             } else {
                 sys.xstar[i] + sys.xscale * st.borrow_mut().ch.float_sym("start_d", 1.0, 8)
